@@ -206,6 +206,9 @@ def ownRequired (fs : List FieldSpec) : List String :=
 def unmapped (fs : List FieldSpec) : List FieldSpec :=
   fs.map fun f => { f with serKey := f.name, camelKey := f.camelName }
 
+/-- `AllFieldsRequired`: no field stays optional -/
+def deopt (fs : List FieldSpec) : List FieldSpec := fs.map fun f => { f with optional := false }
+
 /-- what a definition reads of its parent class: how it derives from it, the parent's
     definition-time core and the parent's LIVE `_required` list -/
 abbrev PInfo := Parent × Core × List String
@@ -228,8 +231,9 @@ def inheritInfo (parent : Option PInfo) (own : List FieldSpec) : List FieldSpec 
         (fun n => !hasDefaultIn (unmapped (pc.fields.filter fun f => ns.contains f.name) ++ own) n) ++ ownRequired own)
   | some (.partialOf _, pc, _) =>
     (unmapped pc.fields ++ own, ownRequired own)
-  | some (.allRequired _, pc, _) =>     -- every field without a default; the source's `_required` is not read
-    (unmapped pc.fields ++ own, ownRequired pc.fields ++ ownRequired own)
+  | some (.allRequired _, pc, _) =>     -- every field without a default (an `_optional` one too); the source's
+                                        -- `_required` is not read
+    (deopt (unmapped pc.fields) ++ own, ownRequired (deopt pc.fields) ++ ownRequired own)
 
 /-- `getattr(cls, "_additionalProperties")` of the new class: its own setting, else what it inherits -/
 def addPropsAttrOf (own : Option Bool) (parent : Option PInfo) : Option Bool :=
